@@ -2,7 +2,7 @@
 //! corrupted partition tables / boot sectors / FSInfo sectors must give Ok or Err, never a panic.
 
 use crate::batch::CaseOutcome;
-use crate::check::lib_tree_compare;
+use crate::check::lib_tree_compare_ex;
 use crate::clock::SimClock;
 use crate::disk::{Blk, RoDisk};
 use crate::fatspec::{self, FatView, FsckOpts, Geom};
@@ -33,6 +33,10 @@ pub struct MountCase {
     /// volume's boot sector there
     #[serde(default)]
     pub relocate_to: Option<u32>,
+    /// Some(seed): the volume manager has already been used on another medium (generated from that seed; the slot
+    /// tried there is a different one), then the medium was exchanged and `device()` called
+    #[serde(default)]
+    pub swap_from: Option<u64>,
 }
 
 const BOOT_FIELDS: &[(u16, u8)] = &[(11, 2), (13, 1), (14, 2), (16, 1), (17, 2), (19, 2), (21, 1), (22, 2), (28, 4), (32, 4), (36, 4), (40, 2), (42, 2), (44, 4), (48, 2), (50, 2), (510, 2)];
@@ -131,7 +135,10 @@ pub fn gen_case(seed: u64) -> MountCase {
             random_sector = Some(r.next_u64());
         }
     }
-    MountCase { dev, target, muts, random_sector, expect_reject, relocate_to }
+    // derived from the seed, not drawn: the stream above stays what older replay files were made with
+    let mut r2 = Rng::new(seed ^ 0x5357_4150_4d45_4449);
+    let swap_from = if r2.chance(1, 4) { Some(r2.next_u64()) } else { None };
+    MountCase { dev, target, muts, random_sector, expect_reject, relocate_to, swap_from }
 }
 
 pub fn mount_eval(case: &MountCase, flips_are_xor: bool) -> CaseOutcome {
@@ -220,8 +227,32 @@ pub fn mount_eval(case: &MountCase, flips_are_xor: bool) -> CaseOutcome {
     let clock = SimClock::new(0);
     let ro = RoDisk::new(&img);
     let slot = v.slot;
+    // the medium that was in the slot before (medium exchange cases)
+    let before: Option<(crate::disk::Image, u8)> = case.swap_from.map(|s| {
+        let mut r = Rng::new(s);
+        let mut d = gen_devspec(&mut r, Bias::Geometry, 2);
+        for v in d.vols.iter_mut() {
+            v.tree.free = None;
+            v.tree.bad = 0;
+            v.tree.files = v.tree.files.min(3);
+            v.tree.dirs = v.tree.dirs.min(1);
+        }
+        // a slot other than the target's: an empty one fails right behind the partition table (whose block then is
+        // the cached one), a used one leaves a mounted volume behind
+        let oslot = (slot + 1 + (s % 3) as u8) % 4;
+        (build_device(&d).0, oslot)
+    });
+    if let Some((other, oslot)) = &before {
+        probes.hit(if case.swap_from.is_some() && other.get(0)[446 + 16 * *oslot as usize + 4] == 0 { "medium_exchanged_after_failed_mount" } else { "medium_exchanged_after_mount" });
+    }
     let r = std::panic::catch_unwind(std::panic::AssertUnwindSafe(|| {
-        let fs = make_fs((4, 4, 1), &ro, &clock, 3);
+        let fs = make_fs(if before.is_some() { (4, 5, 2) } else { (4, 4, 1) }, &ro, &clock, 3);
+        if let Some((other, oslot)) = &before {
+            ro.alt.set(Some(other));
+            let _ = fs.open_volume(*oslot as usize, 0);
+            ro.alt.set(None);
+            fs.touch_device();
+        }
         let r = fs.open_volume(slot as usize, 0);
         match r {
             Ok(vh) => {
@@ -247,6 +278,53 @@ pub fn mount_eval(case: &MountCase, flips_are_xor: bool) -> CaseOutcome {
             crate::rng::fnv_add(&mut h, e.as_bytes());
         }
     }
+    // ---- C04 clause, judged in the C04 batch: only the information-sector side is damaged (its contents, or the
+    // boot sector's pointer to it), so the geometry is the formatter's and says where writes may go. If such a
+    // medium mounts, creating and writing one small file must write nothing but FAT blocks, the root directory,
+    // clusters that were free, and the information sector the formatter made - never the boot sector, the
+    // partition table, a used cluster or a block outside the volume.
+    let info_side_only = case.random_sector.map_or(true, |s| s % 3 == 2) && case.relocate_to.is_none() && case.muts.iter().all(|m| m.sector == 2 || (m.sector == 1 && (m.off == 48 || m.off == 49) && m.bytes.len() <= (50 - m.off as usize))) && (!case.muts.is_empty() || case.random_sector.is_some());
+    if info_side_only && v.fat32 && matches!(r, Ok(Ok(_))) && !case.expect_reject {
+        probes.hit("wrote_after_mounting_with_a_damaged_information_sector");
+        let disk = crate::disk::SimDisk::new(img.clone());
+        disk.set_cap(2_000_000);
+        let g = &g0;
+        let fat = FatView::load(&img, g, 0);
+        let root_chain: Vec<u32> = fatspec::chain(&fat, g, g.root_cluster).0;
+        let _ = std::panic::catch_unwind(std::panic::AssertUnwindSafe(|| {
+            let fs = make_fs((4, 4, 1), &disk, &clock, 9);
+            if let Ok(vh) = fs.open_volume(slot as usize, 0) {
+                if let Ok(d) = fs.open_root_dir(vh, 0) {
+                    if let Ok(f) = fs.open_file(d, &crate::fs::Name::Str("ZZNEW.TMP".into()), embedded_sdmmc::Mode::ReadWriteCreateOrTruncate, 0) {
+                        let _ = fs.write(f, &[0x5Au8; 700], 0);
+                        let _ = fs.flush_file(f, 0);
+                        let _ = fs.close_file(f, 0);
+                    }
+                    let _ = fs.close_dir(d, 0);
+                }
+                let _ = fs.close_volume(vh, 0);
+            }
+        }));
+        let st = disk.st.borrow();
+        for e in st.log.iter().filter(|e| e.write) {
+            let b = e.block;
+            let ok = if b >= g.first_fat && b < g.first_fat + g.num_fats * g.fat_size {
+                true
+            } else if b == g.fsinfo {
+                true
+            } else {
+                match g.block_cluster(b) {
+                    Some(c) => root_chain.contains(&c) || fat.val(c) == fatspec::FatVal::Free,
+                    None => false,
+                }
+            };
+            if !ok {
+                let what = if b == 0 { "the partition table".to_string() } else if b == g.part_lba { "the boot sector".to_string() } else if b < g.first_fat && b > g.part_lba { format!("reserved sector {}", b - g.part_lba) } else if g.block_cluster(b).is_some() { "a cluster that was in use".to_string() } else { "a block outside the volume".to_string() };
+                viols.push(Violation { prop: "C04", oracle: "write-after-damaged-information-sector".into(), disc: what.split(' ').take(3).collect::<Vec<_>>().join("-"), detail: format!("block {} written ({}); boot sector says information sector {}, formatter put it at {}", b, what, u16::from_le_bytes([img.get(g.part_lba)[48], img.get(g.part_lba)[49]]), g.fsinfo - g.part_lba), op_idx: 0 });
+                break;
+            }
+        }
+    }
     if !corrupted {
         if case.expect_reject {
             probes.hit("fat12_sized_volume");
@@ -262,7 +340,7 @@ pub fn mount_eval(case: &MountCase, flips_are_xor: bool) -> CaseOutcome {
                         Ok(g) => {
                             let fat = FatView::load(&img, &g, 0);
                             let tree = fatspec::walk(&img, &g, &fat, &FsckOpts::default());
-                            for (o, d) in lib_tree_compare(&img, slot, &g, &tree, 0) {
+                            for (o, d) in lib_tree_compare_ex(&img, slot, &g, &tree, 0, before.as_ref().map(|(i, s)| (i, *s))) {
                                 viols.push(Violation { prop: "C15", oracle: format!("valid-layout/{}", o), disc: format!("{}:spc{}:fats{}", if g.fat32 { "fat32" } else { "fat16" }, g.spc, g.num_fats), detail: d, op_idx: 0 });
                             }
                             // and the reader must agree with what the formatter intended
@@ -313,6 +391,45 @@ pub fn mount_case(seed: u64) -> CaseOutcome {
     // record how the mutation list is to be read, for replay
     if let serde_json::Value::Object(m) = &mut o.case {
         m.insert("flips_are_xor".into(), serde_json::Value::Bool(xor));
+    }
+    o
+}
+
+/// the C04 slice: a FAT32 volume whose information sector, or the boot sector's pointer to it, is damaged
+pub fn mount_case_info(seed: u64) -> CaseOutcome {
+    let mut c = gen_case(seed);
+    let mut r = Rng::new(seed ^ 0x696e_666f);
+    c.muts.clear();
+    c.random_sector = None;
+    c.relocate_to = None;
+    c.swap_from = None;
+    if c.expect_reject || !c.dev.vols[c.target].fat32 {
+        // make the target a FAT32 volume of its own
+        let mut d = gen_devspec(&mut r, Bias::Info, 1);
+        for _ in 0..8 {
+            if d.vols[0].fat32 {
+                break;
+            }
+            d = gen_devspec(&mut r, Bias::Info, 1);
+        }
+        for v in d.vols.iter_mut() {
+            v.tree.bad = v.tree.bad.min(2);
+        }
+        c.dev = d;
+        c.target = 0;
+        c.expect_reject = false;
+    }
+    match r.below(10) {
+        0..=4 => c.muts.push(Mutation { sector: 1, off: 48, bytes: boundary_value(&mut r, 2) }),
+        5..=7 => {
+            let (o, l) = *r.pick(INFO_FIELDS);
+            c.muts.push(Mutation { sector: 2, off: o, bytes: boundary_value(&mut r, l) });
+        }
+        _ => c.random_sector = Some(r.next_u64() / 3 * 3 + 2),
+    }
+    let mut o = mount_eval(&c, false);
+    if let serde_json::Value::Object(m) = &mut o.case {
+        m.insert("flips_are_xor".into(), serde_json::Value::Bool(false));
     }
     o
 }
